@@ -8,6 +8,8 @@ import (
 	"encoding/json"
 	"flag"
 	"fmt"
+	"io"
+	"log"
 	"os"
 	"path/filepath"
 	"sort"
@@ -18,6 +20,20 @@ import (
 )
 
 const Root = "/verif"
+
+// Out is where VIOLATION / KNOWN-FINDING / summary lines go (stdout unless SilenceStdout was called).
+var Out io.Writer = os.Stdout
+
+// SilenceStdout keeps the check's own report lines on the real stdout and sends everything the code
+// under test prints with fmt.Print* (warnings, debug output) to /dev/null; log output is discarded too.
+func SilenceStdout() {
+	real := os.Stdout
+	Out = real
+	if dn, err := os.OpenFile(os.DevNull, os.O_WRONLY, 0); err == nil {
+		os.Stdout = dn
+	}
+	log.SetOutput(io.Discard)
+}
 
 type Finding struct {
 	Property  string `json:"property"`
@@ -146,8 +162,8 @@ func (r *Run) Report(sig, what string, replay any) bool {
 	os.WriteFile(path, b, 0o644)
 	r.violSigs[sig] = path
 	r.violOrder = append(r.violOrder, sig)
-	fmt.Printf("VIOLATION property=%s replay=%s\n", r.ID, path)
-	fmt.Printf("  signature: %s\n  what: %s\n", sig, what)
+	fmt.Fprintf(Out, "VIOLATION property=%s replay=%s\n", r.ID, path)
+	fmt.Fprintf(Out, "  signature: %s\n  what: %s\n", sig, what)
 	return false
 }
 
@@ -167,7 +183,7 @@ func (r *Run) Finish() {
 	sort.Strings(sigs)
 	var khits []map[string]any
 	for _, s := range sigs {
-		fmt.Printf("KNOWN-FINDING: property=%s %s [%s] (%d cases)\n", r.ID, r.known[s].What, s, r.knownHit[s])
+		fmt.Fprintf(Out, "KNOWN-FINDING: property=%s %s [%s] (%d cases)\n", r.ID, r.known[s].What, s, r.knownHit[s])
 		khits = append(khits, map[string]any{"signature": s, "cases": r.knownHit[s]})
 	}
 	// known findings that did not reproduce are reported on stderr only (never an alarm)
@@ -206,7 +222,7 @@ func (r *Run) Finish() {
 			os.Exit(2)
 		}
 	}
-	fmt.Printf("%s tier=%s wall=%.1fs violations=%d known=%d %s\n", r.ID, r.Tier, time.Since(r.start).Seconds(), nviol, len(sigs), r.summary())
+	fmt.Fprintf(Out, "%s tier=%s wall=%.1fs violations=%d known=%d %s\n", r.ID, r.Tier, time.Since(r.start).Seconds(), nviol, len(sigs), r.summary())
 	if nviol > 0 {
 		os.Exit(1)
 	}
